@@ -562,6 +562,138 @@ pub fn text_census(rule: &str, text: &str) -> usize {
 
 /// Replay the witnesses of known_findings.json for `property`: still failing as described ⇒
 /// `KNOWN-FINDING`; no longer failing ⇒ silence.
+/// Region of known finding F31 (C07): does a QUOTED string literal of the source contain an escape that is Luau /
+/// Lua 5.2+ only (`\x..`, `\u{..}`, `\z`)? Comments, long-bracket strings and backtick strings are skipped (the
+/// value of an interpolated string is re-encoded by the rule; only quoted string TOKENS are kept as written).
+pub fn has_luau_string_escape(code: &str) -> bool {
+    let b = code.as_bytes();
+    scan_code(b, 0, false).0
+}
+
+fn long_open(b: &[u8], i: usize) -> Option<usize> {
+    // `[`, `=`*, `[` at i: returns the level
+    if b.get(i) != Some(&b'[') {
+        return None;
+    }
+    let mut j = i + 1;
+    while b.get(j) == Some(&b'=') {
+        j += 1;
+    }
+    if b.get(j) == Some(&b'[') { Some(j - i - 1) } else { None }
+}
+
+fn skip_long(b: &[u8], mut i: usize, level: usize) -> usize {
+    i += level + 2;
+    while i < b.len() {
+        if b[i] == b']' {
+            let mut j = i + 1;
+            while b.get(j) == Some(&b'=') {
+                j += 1;
+            }
+            if j - i - 1 == level && b.get(j) == Some(&b']') {
+                return j + 1;
+            }
+        }
+        i += 1;
+    }
+    i
+}
+
+/// scans code from `i`; with `in_value` it stops behind the `}` that closes an interpolated value. Returns
+/// (a quoted string with a Luau-only escape was seen, position after the scanned part)
+fn scan_code(b: &[u8], mut i: usize, in_value: bool) -> (bool, usize) {
+    let mut depth = 0usize;
+    while i < b.len() {
+        match b[i] {
+            b'-' if b.get(i + 1) == Some(&b'-') => {
+                if let Some(level) = long_open(b, i + 2) {
+                    i = skip_long(b, i + 2, level);
+                } else {
+                    while i < b.len() && b[i] != b'\n' {
+                        i += 1;
+                    }
+                }
+            }
+            b'[' => {
+                if let Some(level) = long_open(b, i) {
+                    i = skip_long(b, i, level);
+                } else {
+                    i += 1;
+                }
+            }
+            b'{' => {
+                depth += 1;
+                i += 1;
+            }
+            b'}' => {
+                if depth == 0 && in_value {
+                    return (false, i + 1);
+                }
+                depth = depth.saturating_sub(1);
+                i += 1;
+            }
+            q @ (b'"' | b'\'') => {
+                i += 1;
+                while i < b.len() && b[i] != q {
+                    if b[i] == b'\\' {
+                        match b.get(i + 1) {
+                            Some(b'x') | Some(b'z') => return (true, i),
+                            Some(b'u') if b.get(i + 2) == Some(&b'{') => return (true, i),
+                            _ => {}
+                        }
+                        i += 2;
+                    } else {
+                        i += 1;
+                    }
+                }
+                i += 1;
+            }
+            b'`' => {
+                // the text of an interpolated string is re-encoded by the rule; its VALUES are code
+                i += 1;
+                while i < b.len() && b[i] != b'`' {
+                    if b[i] == b'\\' {
+                        i += 2;
+                    } else if b[i] == b'{' {
+                        let (found, next) = scan_code(b, i + 1, true);
+                        if found {
+                            return (true, next);
+                        }
+                        i = next;
+                    } else {
+                        i += 1;
+                    }
+                }
+                i += 1;
+            }
+            _ => i += 1,
+        }
+    }
+    (false, i)
+}
+
+/// all nine rules through `darklua_core::process` with the given generator: the text, or None
+pub fn process_all(code: &str, generator: &str) -> Option<String> {
+    let resources = darklua_core::Resources::from_memory();
+    resources.write("src/main.lua", code).ok()?;
+    let rule_list: Vec<String> = RULES.iter().map(|r| format!("'{}'", r)).collect();
+    let config_text = format!("{{ generator: '{}', rules: [{}] }}", generator, rule_list.join(", "));
+    let config: darklua_core::Configuration = json5::from_str(&config_text).ok()?;
+    let result = std::panic::catch_unwind(std::panic::AssertUnwindSafe(|| {
+        darklua_core::process(&resources, darklua_core::Options::new("src").with_configuration(config))
+    }));
+    match result {
+        Ok(Ok(r)) => {
+            if r.result().is_ok() {
+                resources.get("src/main.lua").ok()
+            } else {
+                None
+            }
+        }
+        _ => None,
+    }
+}
+
 pub fn replay_known_findings(model: &mut Model, report: &mut Report, property: &str) {
     for entry in crate::report::known_findings(property) {
         if entry["status"] == "fixed" {
@@ -581,7 +713,14 @@ pub fn replay_known_findings(model: &mut Model, report: &mut Report, property: &
         };
         let rules = vec![rule];
         let kind = witness["kind"].as_str().unwrap_or("behaviour");
-        let still = if kind == "lua51-text" {
+        let still = if kind == "lua51-process" {
+            // the whole pipeline (process) with the generator named by the witness
+            let generator = witness["generator"].as_str().unwrap_or("retain_lines");
+            match process_all(code, generator) {
+                Some(text) => crate::lua51check::check(&text).is_err(),
+                None => false,
+            }
+        } else if kind == "lua51-text" {
             // all nine rules, then the dense text must be strict Lua 5.1
             match exec::parse(code) {
                 Ok(b0) => {
